@@ -124,7 +124,8 @@ func scUDP(kind string, enc, comp bool, nUsers int, sizeSet string, cut bool) fu
 		w.Quiesce()
 		users := make([]*user, nUsers)
 		for i := range users {
-			addr := fmt.Sprintf("10.4.0.%d:%d", i+1, 4000+i)
+			// users 0 and 1 share an IP (different ports); the virtual host keys UDP sockets by port, so ports are distinct
+			addr := []string{"10.4.0.1:4000", "10.4.0.1:4001", "10.4.0.2:4002"}[i]
 			s, err := w.H.UDPFrom(addr)
 			if err != nil {
 				vs.Fail("user socket: %v", err)
@@ -138,18 +139,8 @@ func scUDP(kind string, enc, comp bool, nUsers int, sizeSet string, cut bool) fu
 		if cut {
 			go func() {
 				vs.Fault("cut the udp work connection")
-				for _, c := range w.H.Conns {
-					if c.ServerSide && c.LocalAddr().(*vnet.TCPAddr).Port == sw.BindPort && !c.IsClosed() && c.Tag == "" && c.In > 0 {
-						// the newest accepted connection on the bind port that is not a control connection
-					}
-				}
-				var victim *vnet.StreamConn
-				for _, c := range w.H.OpenConns() {
-					if c.ServerSide && c.LocalAddr().(*vnet.TCPAddr).Port == sw.BindPort {
-						victim = c
-					}
-				}
-				if victim != nil {
+				for _, victim := range w.InUseWorkConns() {
+					vs.Observe("cut %v", victim.LocalAddr())
 					victim.Close()
 					victim.Peer.Close()
 				}
